@@ -419,6 +419,22 @@ def aligned(ctx):
         other = df.Mesh(p1=p1.tolist(), p2=(p1 + n2 * c2).tolist(), n=[int(k) for k in n2])
         ctx.check("C14.is_aligned.false", not mesh.is_aligned(other) and not other.is_aligned(mesh),
                   what={**what, "cell2": c2}, note="different cell size reported as aligned")
+        # commensurate but different cells: other cell = cell*q/r along one axis (>= 10 %
+        # apart), r*m cells, origin shifted by whole cells - both corners then differ from
+        # the mesh's by whole multiples of its cell, so only the cell sizes tell them apart
+        q, r = [(2, 1), (1, 2), (3, 2), (2, 3), (4, 3), (3, 4), (5, 4), (4, 5), (9, 8), (8, 9)][
+            int(rng.integers(0, 10))]
+        m = int(rng.integers(1, 4))
+        c3, n3 = cell.copy(), n2.copy()
+        c3[ax] = cell[ax] * q / r
+        n3[ax] = r * m
+        p1 = spec.pmin + shift * cell
+        p2 = p1 + n2 * cell
+        p2[ax] = p1[ax] + m * q * cell[ax]
+        other = df.Mesh(p1=p1.tolist(), p2=p2.tolist(), n=[int(k) for k in n3])
+        ctx.check("C14.is_aligned.false", not mesh.is_aligned(other) and not other.is_aligned(mesh),
+                  what={**what, "cell2": c3, "ratio": (q, r)},
+                  note="commensurate but different cell size reported as aligned")
     ctx.expect_raises("C14.is_aligned.malformed_rejected", mesh.is_aligned, mesh.region)
     ctx.expect_raises("C14.is_aligned.malformed_rejected", mesh.is_aligned, mesh, "tight")
 
